@@ -1,7 +1,1119 @@
-//! C17 — stub (not built yet).
+//! C17 — X.509 times, validity windows and serial numbers mean what the
+//! calendar / the integers say.
+//!
+//! The harness carries its own proleptic-Gregorian calendar
+//! (days-from-civil), its own renderer of the two ASN.1 time forms, its own
+//! big-number arithmetic (5 x u32 limbs) and its own DER INTEGER writer; the
+//! library is compared against those.
 
 use crate::engine::*;
+use crate::gen::pick_idx;
+use bcder::encode::{PrimitiveContent, Values};
+use bcder::Mode;
+use chrono::{Datelike, TimeZone, Timelike, Utc};
+use proptest::prelude::*;
+use rpki::repository::x509::{Serial, Time, Validity};
+use serde::{Deserialize, Serialize};
+use serde_json::json;
+use std::cmp::Ordering;
+use std::hash::{Hash, Hasher};
+use std::str::FromStr;
+
+pub const RULE: &str = "days: complete sweep of every calendar day 0001-01-01..9999-12-31 x seconds-of-day {0, 43200, 86399} \
+(plus 1 and 86398 on 31 Dec / 1 Jan), built both from the harness calendar's civil fields and from its timestamp; oracle = \
+independent days-from-civil calendar and renderer: encode_varied bytes == reference (UTCTime tag iff 1950<=year<=2049), \
+explicit UTCTime/GeneralizedTime forms, take_from and take_opt_from decode back to the instant; non-trivial = instant \
+within 1 s of a day boundary. seconds: every second of 12 (quick) / 400 (thorough) days (the 1950/2050 switch days, a leap \
+day, first and last day, seed-derived days). strings: for 20 valid UTCTime and 20 valid GeneralizedTime base strings the \
+base, all single substitutions over {0-9 + - . : SPACE Z z / NUL A 0xB0 0xFF}, all deletions, insertions, wrong and swapped \
+tags, and all double substitutions over {0-9 + - . : SPACE Z z} and all triple substitutions on 4 (quick) / all 40 (thorough) bases; oracle \
+three-valued: must-accept (fixed width, all digits, Z, real date/time, second<=59, year>=1) => instant equals the calendar \
+model with pivot 50; must-reject (wrong tag/width, non-digit, no Z, month 0/13+, day 0/past month end, hour>=24, \
+minute>=60, second>=61); don't-care (year 0000, second 60); non-trivial = candidate differing from its base. validity: \
+complete enumeration of (not-before, not-after) x now and x second window over a boundary-dense instant set (year 1, \
+1949/1950, 1970, 2038, 2049/2050, 9999 ends, neighbours at 1 s, seed-derived); oracle = integer comparison nb<=now<=na, \
+trim = (max, min) and pointwise intersection at the window edges, Validity DER round trip against the reference writer; \
+non-trivial = now within 1 s of a bound / windows that overlap or touch. serial-enum: all ordered pairs over {0..300, \
+2^k-1, 2^k, 2^k+1 (k<159), 2^159-1, seed-derived}; serial-random: random 20-octet arrays (boundary-dense, leading zeros, \
+high-bit-set first octet), neighbour/equal/independent second array, decimal strings derived by padding, signs, extra \
+digits, garbage, values around 2^159; oracle = 5x32-bit limb arithmetic (long division by 10^9, schoolbook parse), minimal \
+DER writer, numeric order == order of (length, bytes) of minimal encodings; non-trivial = pair of distinct values / \
+string that is not the canonical rendering.";
+
+//------------ calendar ---------------------------------------------------------
+
+fn is_leap(y: i64) -> bool {
+    (y % 4 == 0 && y % 100 != 0) || y % 400 == 0
+}
+
+fn days_in_month(y: i64, m: u32) -> u32 {
+    match m {
+        1 | 3 | 5 | 7 | 8 | 10 | 12 => 31,
+        4 | 6 | 9 | 11 => 30,
+        _ => if is_leap(y) { 29 } else { 28 },
+    }
+}
+
+/// Days since 1970-01-01 (proleptic Gregorian).
+fn days_from_civil(y: i64, m: u32, d: u32) -> i64 {
+    let y = if m <= 2 { y - 1 } else { y };
+    let era = y.div_euclid(400);
+    let yoe = y.rem_euclid(400);
+    let mp = (m as i64 + 9) % 12;
+    let doy = (153 * mp + 2) / 5 + d as i64 - 1;
+    let doe = yoe * 365 + yoe / 4 - yoe / 100 + doy;
+    era * 146097 + doe - 719468
+}
+
+fn civil_from_days(z: i64) -> (i64, u32, u32) {
+    let z = z + 719468;
+    let era = z.div_euclid(146097);
+    let doe = z.rem_euclid(146097);
+    let yoe = (doe - doe / 1460 + doe / 36524 - doe / 146096) / 365;
+    let doy = doe - (365 * yoe + yoe / 4 - yoe / 100);
+    let mp = (5 * doy + 2) / 153;
+    let d = (doy - (153 * mp + 2) / 5 + 1) as u32;
+    let m = if mp < 10 { mp + 3 } else { mp - 9 } as u32;
+    let y = yoe + era * 400 + if m <= 2 { 1 } else { 0 };
+    (y, m, d)
+}
+
+const DAY_MIN: i64 = -719162; // 0001-01-01
+const DAY_MAX: i64 = 2932896; // 9999-12-31
+const TS_MIN: i64 = DAY_MIN * 86400;
+const TS_MAX: i64 = DAY_MAX * 86400 + 86399;
+
+#[derive(Clone, Copy, Debug, PartialEq, Eq)]
+struct Civil {
+    y: i64,
+    mo: u32,
+    d: u32,
+    h: u32,
+    mi: u32,
+    s: u32,
+}
+
+fn civil_of_ts(ts: i64) -> Civil {
+    let (day, sod) = (ts.div_euclid(86400), ts.rem_euclid(86400) as u32);
+    let (y, mo, d) = civil_from_days(day);
+    Civil { y, mo, d, h: sod / 3600, mi: sod / 60 % 60, s: sod % 60 }
+}
+
+fn utc_form(y: i64) -> bool {
+    (1950..=2049).contains(&y)
+}
+
+/// Reference TLV of a time in the given form.
+fn ref_time(c: Civil, utc: bool) -> Vec<u8> {
+    let body = if utc {
+        format!("{:02}{:02}{:02}{:02}{:02}{:02}Z", c.y % 100, c.mo, c.d, c.h, c.mi, c.s)
+    } else {
+        format!("{:04}{:02}{:02}{:02}{:02}{:02}Z", c.y, c.mo, c.d, c.h, c.mi, c.s)
+    };
+    let mut v = vec![if utc { 0x17 } else { 0x18 }, body.len() as u8];
+    v.extend_from_slice(body.as_bytes());
+    v
+}
+
+fn lib_time(ts: i64) -> Result<Time, Fail> {
+    Utc.timestamp_opt(ts, 0).single().map(Time::new).ok_or_else(|| Fail::new(format!("chrono cannot represent timestamp {}", ts)))
+}
+
+fn decode_time(tlv: &[u8]) -> Result<Time, String> {
+    Mode::Der.decode(tlv, Time::take_from).map_err(|e| e.to_string())
+}
+
+fn decode_time_opt(tlv: &[u8]) -> Result<Option<Time>, String> {
+    Mode::Der.decode(tlv, Time::take_opt_from).map_err(|e| e.to_string())
+}
+
+fn enc<V: Values>(v: V, buf: &mut Vec<u8>) -> Result<(), Fail> {
+    buf.clear();
+    let n = v.encoded_len(Mode::Der);
+    v.write_encoded(Mode::Der, buf).map_err(|e| Fail::new(format!("encoding failed: {}", e)))?;
+    ensure!(n == buf.len(), "encoded_len {} but {} bytes written", n, buf.len());
+    Ok(())
+}
+
+fn show(s: &[u8]) -> String {
+    format!("\"{}\"", s.escape_ascii())
+}
+
+fn check_instant(ts: i64, buf: &mut Vec<u8>) -> CheckResult {
+    let c = civil_of_ts(ts);
+    let t = lib_time(ts)?;
+    let t2 = Time::utc(c.y as i32, c.mo, c.d, c.h, c.mi, c.s);
+    ensure!(t == t2 && t2.timestamp() == ts, "Time::utc({:?}) is {:?} (timestamp {}), calendar model says timestamp {}", c, t2, t2.timestamp(), ts);
+    ensure!(
+        (t.year() as i64, t.month(), t.day(), t.hour(), t.minute(), t.second()) == (c.y, c.mo, c.d, c.h, c.mi, c.s),
+        "civil fields of timestamp {}: library {:?}, model {:?}", ts, t, c
+    );
+    let utc = utc_form(c.y);
+    let exp = ref_time(c, utc);
+    enc(t.encode_varied(), buf)?;
+    ensure_sig!(*buf == exp, "time-encode-varied", "encode_varied({:?}) = {}, reference {}", c, show(buf), show(&exp));
+    let d = decode_time(&exp);
+    ensure_sig!(d == Ok(t), "time-roundtrip", "take_from({}) = {:?}, expected {:?}", show(&exp), d, t);
+    let d = decode_time_opt(&exp);
+    ensure_sig!(d == Ok(Some(t)), "time-roundtrip", "take_opt_from({}) = {:?}, expected {:?}", show(&exp), d, t);
+    // the explicit forms
+    let g = ref_time(c, false);
+    enc(t.encode_generalized_time(), buf)?;
+    ensure!(*buf == g, "encode_generalized_time({:?}) = {}, reference {}", c, show(buf), show(&g));
+    if utc {
+        enc(t.encode_utc_time(), buf)?;
+        ensure!(*buf == exp, "encode_utc_time({:?}) = {}, reference {}", c, show(buf), show(&exp));
+        // a strictly valid GeneralizedTime naming the same second decodes too
+        let d = decode_time(&g);
+        ensure!(d == Ok(t), "take_from({}) = {:?}, expected {:?}", show(&g), d, t);
+    }
+    Ok(())
+}
+
+//------------ days -------------------------------------------------------------
+
+#[derive(Clone, Debug, Serialize, Deserialize)]
+pub struct DayChunk {
+    pub start_day: i64,
+    pub len: u64,
+    /// None: the standard second-of-day set
+    pub sod: Option<u32>,
+}
+
+const DAY_CHUNK: u64 = 2048;
+
+fn count_days(_: Tier, _: u64) -> u64 {
+    ((DAY_MAX - DAY_MIN + 1) as u64).div_ceil(DAY_CHUNK)
+}
+fn make_days(_: Tier, _: u64, idx: u64) -> DayChunk {
+    let start = DAY_MIN + (idx * DAY_CHUNK) as i64;
+    DayChunk { start_day: start, len: DAY_CHUNK.min((DAY_MAX - start + 1) as u64), sod: None }
+}
+
+fn run_days(c: &DayChunk, obs: &mut Obs) -> CheckResult {
+    let mut buf = Vec::new();
+    let (mut evals, mut nt) = (0u64, 0u64);
+    let mut switch = false;
+    for day in c.start_day..c.start_day + c.len as i64 {
+        ensure!((DAY_MIN..=DAY_MAX).contains(&day), "day {} outside years 1..9999", day);
+        let (y, m, d) = civil_from_days(day);
+        ensure!(days_from_civil(y, m, d) == day && d >= 1 && d <= days_in_month(y, m), "harness calendar broken at day {}", day);
+        let year_edge = (m == 12 && d == 31) || (m == 1 && d == 1);
+        switch |= year_edge && (y == 1949 || y == 1950 || y == 2049 || y == 2050);
+        let std: &[u32] = if year_edge { &[0, 1, 43200, 86398, 86399] } else { &[0, 43200, 86399] };
+        let one;
+        let sods: &[u32] = match c.sod {
+            Some(s) => {
+                one = [s];
+                &one
+            }
+            None => std,
+        };
+        for &sod in sods {
+            evals += 1;
+            if sod <= 1 || sod >= 86398 {
+                nt += 1;
+            }
+            if let Err(f) = check_instant(day * 86400 + sod as i64, &mut buf) {
+                return Err(Fail::sig(f.sig, f.msg).with_case(json!({"start_day": day, "len": 1, "sod": sod})));
+            }
+        }
+    }
+    obs.evals(evals.saturating_sub(1));
+    obs.bulk_nontrivial = nt;
+    obs.label_if(switch, "contains-1950/2050-switch");
+    Ok(())
+}
+
+//------------ seconds ----------------------------------------------------------
+
+#[derive(Clone, Debug, Serialize, Deserialize)]
+pub struct SecChunk {
+    pub day: i64,
+    pub start: u32,
+    pub len: u32,
+}
+
+fn sweep_days(tier: Tier, seed: u64) -> Vec<i64> {
+    let mut v = vec![
+        days_from_civil(1949, 12, 31),
+        days_from_civil(1950, 1, 1),
+        days_from_civil(2049, 12, 31),
+        days_from_civil(2050, 1, 1),
+        days_from_civil(2000, 2, 29),
+        days_from_civil(1900, 2, 28),
+        DAY_MIN,
+        DAY_MAX,
+    ];
+    let extra = tier.pick(4, 392);
+    for x in seed_values(seed, "C17", "sweep-days", extra) {
+        v.push(DAY_MIN + (x % (DAY_MAX - DAY_MIN + 1) as u64) as i64);
+    }
+    v
+}
+
+const SEC_CHUNK: u32 = 7200;
+
+fn count_seconds(tier: Tier, seed: u64) -> u64 {
+    sweep_days(tier, seed).len() as u64 * (86400 / SEC_CHUNK) as u64
+}
+fn make_seconds(tier: Tier, seed: u64, idx: u64) -> SecChunk {
+    let per = (86400 / SEC_CHUNK) as u64;
+    SecChunk { day: sweep_days(tier, seed)[(idx / per) as usize], start: (idx % per) as u32 * SEC_CHUNK, len: SEC_CHUNK }
+}
+
+fn run_seconds(c: &SecChunk, obs: &mut Obs) -> CheckResult {
+    ensure!((DAY_MIN..=DAY_MAX).contains(&c.day) && c.start as u64 + c.len as u64 <= 86400, "chunk outside domain");
+    let mut buf = Vec::new();
+    let mut nt = 0u64;
+    for sod in c.start..c.start + c.len {
+        if sod % 60 == 0 || sod % 60 == 59 {
+            nt += 1;
+        }
+        if let Err(f) = check_instant(c.day * 86400 + sod as i64, &mut buf) {
+            return Err(Fail::sig(f.sig, f.msg).with_case(json!({"day": c.day, "start": sod, "len": 1})));
+        }
+    }
+    obs.evals((c.len as u64).saturating_sub(1));
+    obs.bulk_nontrivial = nt;
+    Ok(())
+}
+
+//------------ strings ----------------------------------------------------------
+
+#[derive(Clone, Copy, PartialEq, Eq, Debug)]
+enum Verdict {
+    Accept(i64),
+    Reject,
+    Free,
+}
+
+fn classify(tag: u8, content: &[u8]) -> Verdict {
+    let width = match tag {
+        0x17 => 13,
+        0x18 => 15,
+        _ => return Verdict::Reject,
+    };
+    if content.len() != width || content[width - 1] != b'Z' || !content[..width - 1].iter().all(u8::is_ascii_digit) {
+        return Verdict::Reject;
+    }
+    let num = |r: std::ops::Range<usize>| content[r].iter().fold(0i64, |a, &b| a * 10 + (b - b'0') as i64);
+    let (y, o) = if tag == 0x17 {
+        let yy = num(0..2);
+        (if yy >= 50 { 1900 + yy } else { 2000 + yy }, 2)
+    } else {
+        (num(0..4), 4)
+    };
+    let (mo, d, h, mi, s) = (num(o..o + 2) as u32, num(o + 2..o + 4) as u32, num(o + 4..o + 6) as u32, num(o + 6..o + 8) as u32, num(o + 8..o + 10) as u32);
+    if !(1..=12).contains(&mo) || d == 0 || d > 31 || h >= 24 || mi >= 60 || s >= 61 {
+        return Verdict::Reject;
+    }
+    if y == 0 {
+        return Verdict::Free;
+    }
+    if d > days_in_month(y, mo) {
+        return Verdict::Reject;
+    }
+    if s == 60 {
+        return Verdict::Free;
+    }
+    Verdict::Accept(days_from_civil(y, mo, d) * 86400 + (h * 3600 + mi * 60 + s) as i64)
+}
+
+fn check_candidate(tag: u8, content: &[u8]) -> CheckResult {
+    if content.len() > 120 {
+        return Ok(());
+    }
+    let mut tlv = vec![tag, content.len() as u8];
+    tlv.extend_from_slice(content);
+    let v = classify(tag, content);
+    let r1 = decode_time(&tlv).ok();
+    let r2 = decode_time_opt(&tlv).ok().flatten();
+    for (what, r) in [("take_from", r1), ("take_opt_from", r2)] {
+        match (v, r) {
+            (Verdict::Accept(ts), Some(t)) => ensure!(
+                t.timestamp() == ts && t.timestamp_subsec_nanos() == 0,
+                "{}(tag {:#04x} {}) = {:?}, calendar model says timestamp {}", what, tag, show(content), t, ts
+            ),
+            (Verdict::Accept(_), None) => {
+                return Err(Fail::new(format!("{} rejects the valid time tag {:#04x} {}", what, tag, show(content))));
+            }
+            (Verdict::Reject, Some(t)) => {
+                let width = if tag == 0x17 { 13 } else { 15 };
+                let nondigit = (tag == 0x17 || tag == 0x18)
+                    && content.len() == width
+                    && content[width - 1] == b'Z'
+                    && !content[..width - 1].iter().all(u8::is_ascii_digit);
+                return Err(Fail::sig(
+                    if nondigit { "time-accepts-nondigit" } else { "time-accepts-malformed" },
+                    format!("{} accepts the malformed time tag {:#04x} {} as {:?}", what, tag, show(content), t),
+                ));
+            }
+            _ => {}
+        }
+    }
+    Ok(())
+}
+
+const UTC_BASES: &[&str] = &[
+    "500101000000Z", "491231235959Z", "000229120000Z", "990228235959Z", "240229000000Z", "700101000000Z", "380119031407Z",
+    "200630235959Z", "691231235959Z", "100430101010Z", "211130173045Z", "230731000001Z", "160229235959Z", "010101010101Z",
+    "991231235959Z", "500228120000Z", "000101000000Z", "121212121212Z", "280229060606Z", "450815091500Z",
+];
+const GEN_BASES: &[&str] = &[
+    "00010101000000Z", "99991231235959Z", "19491231235959Z", "20500101000000Z", "20000229120000Z", "19000228235959Z",
+    "21000228000000Z", "24000229000000Z", "16000229121212Z", "19700101000000Z", "20380119031408Z", "00040229000000Z",
+    "01000228101010Z", "18991231235959Z", "20491231235959Z", "19500101000000Z", "30000630120000Z", "12151015101010Z",
+    "04000229235959Z", "99990101000000Z",
+];
+const SUB_ALPHA: &[u8] = b"0123456789+-.: Zz";
+const SINGLE_EXTRA: &[u8] = b"/\0A\xb0\xff";
+const WRONG_TAGS: &[u8] = &[0x16, 0x13, 0x0c, 0x04, 0x02, 0x19, 0x37, 0x38, 0x57, 0x97];
+
+/// Latin-1 string <-> bytes (contents may hold 0x80..0xFF).
+fn to_l1(b: &[u8]) -> String {
+    b.iter().map(|&b| b as char).collect()
+}
+fn from_l1(s: &str) -> Result<Vec<u8>, Fail> {
+    s.chars().map(|c| u8::try_from(c as u32).map_err(|_| Fail::new("replay case holds a char above U+00FF"))).collect()
+}
+
+#[derive(Clone, Debug, Serialize, Deserialize)]
+pub struct StrRow {
+    pub tag: u8,
+    /// base string (Latin-1)
+    pub base: String,
+    /// 0: base, singles, deletions, insertions, tags; 1: doubles with first position i; 2: triples with first positions i<j
+    pub op: u8,
+    pub i: u32,
+    pub j: u32,
+    /// Some: check exactly this content (Latin-1) under `tag`
+    pub exact: Option<String>,
+}
+
+fn str_rows(tier: Tier) -> Vec<StrRow> {
+    let mut v = Vec::new();
+    let bases = UTC_BASES.iter().map(|b| (0x17u8, *b)).chain(GEN_BASES.iter().map(|b| (0x18u8, *b)));
+    for (n, (tag, base)) in bases.enumerate() {
+        let w = base.len() as u32;
+        v.push(StrRow { tag, base: base.to_string(), op: 0, i: 0, j: 0, exact: None });
+        for i in 0..w - 1 {
+            v.push(StrRow { tag, base: base.to_string(), op: 1, i, j: 0, exact: None });
+        }
+        if tier == Tier::Thorough || n % 10 == 0 {
+            for i in 0..w - 2 {
+                for j in i + 1..w - 1 {
+                    v.push(StrRow { tag, base: base.to_string(), op: 2, i, j, exact: None });
+                }
+            }
+        }
+    }
+    v
+}
+
+fn count_strings(tier: Tier, _: u64) -> u64 {
+    str_rows(tier).len() as u64
+}
+fn make_strings(tier: Tier, _: u64, idx: u64) -> StrRow {
+    str_rows(tier).swap_remove(idx as usize)
+}
+
+fn run_strings(r: &StrRow, obs: &mut Obs) -> CheckResult {
+    if let Some(x) = &r.exact {
+        obs.nontrivial();
+        return check_candidate(r.tag, &from_l1(x)?);
+    }
+    let base = from_l1(&r.base)?;
+    let w = base.len();
+    ensure!(matches!(classify(r.tag, &base), Verdict::Accept(_)), "base string {} is not valid", show(&base));
+    ensure!((r.i as usize) < w && (r.j as usize) < w, "position outside the base string");
+    let (mut evals, mut nt) = (0u64, 0u64);
+    let mut probe = |tag: u8, cand: &[u8]| -> CheckResult {
+        evals += 1;
+        if tag != r.tag || cand != &base[..] {
+            nt += 1;
+        }
+        check_candidate(tag, cand).map_err(|f| {
+            Fail::sig(f.sig, f.msg).with_case(json!({"tag": tag, "base": r.base, "op": r.op, "i": r.i, "j": r.j, "exact": to_l1(cand)}))
+        })
+    };
+    let mut cand = base.clone();
+    match r.op {
+        0 => {
+            probe(r.tag, &base)?;
+            for p in 0..w {
+                for &ch in SUB_ALPHA.iter().chain(SINGLE_EXTRA) {
+                    cand[p] = ch;
+                    probe(r.tag, &cand)?;
+                }
+                cand[p] = base[p];
+                let mut del = base.clone();
+                del.remove(p);
+                probe(r.tag, &del)?;
+            }
+            for p in 0..=w {
+                for &ch in SUB_ALPHA {
+                    let mut ins = base.clone();
+                    ins.insert(p, ch);
+                    probe(r.tag, &ins)?;
+                }
+            }
+            probe(r.tag, &[])?;
+            probe(r.tag, b"Z")?;
+            probe(r.tag, &[&base[..], &b"Z"[..]].concat())?;
+            probe(r.tag, &[&base[..], &base[..]].concat())?;
+            // fractional seconds and offsets, the other usual ASN.1 shapes
+            probe(r.tag, &[&base[..w - 1], &b".0Z"[..]].concat())?;
+            probe(r.tag, &[&base[..w - 1], &b"+0000"[..]].concat())?;
+            probe(r.tag, &base[..w - 3])?;
+            probe(r.tag, &[&base[..w - 3], &b"Z"[..]].concat())?;
+            // right content under a wrong tag, and the two forms swapped
+            for &t in WRONG_TAGS {
+                probe(t, &base)?;
+            }
+            probe(if r.tag == 0x17 { 0x18 } else { 0x17 }, &base)?;
+        }
+        1 => {
+            let i = r.i as usize;
+            for &c1 in SUB_ALPHA {
+                cand[i] = c1;
+                for j in i + 1..w {
+                    for &c2 in SUB_ALPHA {
+                        cand[j] = c2;
+                        probe(r.tag, &cand)?;
+                    }
+                    cand[j] = base[j];
+                }
+            }
+        }
+        _ => {
+            let (i, j) = (r.i as usize, r.j as usize);
+            ensure!(i < j, "triple row needs i < j");
+            for &c1 in SUB_ALPHA {
+                cand[i] = c1;
+                for &c2 in SUB_ALPHA {
+                    cand[j] = c2;
+                    for k in j + 1..w {
+                        for &c3 in SUB_ALPHA {
+                            cand[k] = c3;
+                            probe(r.tag, &cand)?;
+                        }
+                        cand[k] = base[k];
+                    }
+                }
+            }
+        }
+    }
+    obs.evals(evals.saturating_sub(1));
+    obs.bulk_nontrivial = nt;
+    obs.label(if r.tag == 0x17 { "utc-time" } else { "generalized-time" });
+    Ok(())
+}
+
+//------------ validity ---------------------------------------------------------
+
+fn instant_set(thorough: bool, seed: u64) -> Vec<i64> {
+    let at = |y, m, d, sod: i64| days_from_civil(y, m, d) * 86400 + sod;
+    let mut v = vec![
+        TS_MIN,
+        TS_MIN + 1,
+        at(1949, 12, 31, 86399),
+        at(1950, 1, 1, 0),
+        at(1969, 12, 31, 86399),
+        0,
+        1,
+        at(2000, 2, 29, 43200),
+        at(2026, 1, 1, 0) - 86400,
+        at(2026, 1, 1, 0) - 1,
+        at(2026, 1, 1, 0),
+        at(2026, 1, 1, 0) + 1,
+        at(2026, 1, 1, 0) + 86400,
+        at(2038, 1, 19, 11647),
+        at(2038, 1, 19, 11648),
+        at(2049, 12, 31, 86399),
+        at(2050, 1, 1, 0),
+        TS_MAX - 1,
+        TS_MAX,
+    ];
+    for x in seed_values(seed, "C17", "instants", if thorough { 24 } else { 8 }) {
+        let t = TS_MIN + 1 + (x % (TS_MAX - TS_MIN - 1) as u64) as i64;
+        v.push(t);
+        v.push(t + 1);
+    }
+    v.sort();
+    v.dedup();
+    v
+}
+
+#[derive(Clone, Debug, Serialize, Deserialize)]
+pub struct ValRow {
+    pub thorough: bool,
+    pub seed: u64,
+    pub nb: i64,
+    pub na: i64,
+    /// Some: only this evaluation time
+    pub now: Option<i64>,
+    /// Some: only this second window
+    pub other: Option<(i64, i64)>,
+}
+
+fn count_validity(tier: Tier, seed: u64) -> u64 {
+    let n = instant_set(tier == Tier::Thorough, seed).len() as u64;
+    n * n
+}
+fn make_validity(tier: Tier, seed: u64, idx: u64) -> ValRow {
+    let th = tier == Tier::Thorough;
+    let t = instant_set(th, seed);
+    let n = t.len() as u64;
+    ValRow { thorough: th, seed, nb: t[(idx / n) as usize], na: t[(idx % n) as usize], now: None, other: None }
+}
+
+fn ok_at(nb: i64, na: i64, now: i64) -> bool {
+    nb <= now && now <= na
+}
+
+fn run_validity(r: &ValRow, obs: &mut Obs) -> CheckResult {
+    ensure!((TS_MIN..=TS_MAX).contains(&r.nb) && (TS_MIN..=TS_MAX).contains(&r.na), "window outside years 1..9999");
+    let set = instant_set(r.thorough, r.seed);
+    let (tnb, tna) = (lib_time(r.nb)?, lib_time(r.na)?);
+    let v = Validity::new(tnb, tna);
+    ensure!(v.not_before() == tnb && v.not_after() == tna, "Validity accessors");
+    let (mut evals, mut nt) = (1u64, 0u64);
+    let case = |now: Option<i64>, other: Option<(i64, i64)>| {
+        json!({"thorough": r.thorough, "seed": r.seed, "nb": r.nb, "na": r.na, "now": now, "other": other})
+    };
+    // DER round trip of the window against the reference writer
+    if r.now.is_none() && r.other.is_none() {
+        let (cb, ca) = (civil_of_ts(r.nb), civil_of_ts(r.na));
+        let (eb, ea) = (ref_time(cb, utc_form(cb.y)), ref_time(ca, utc_form(ca.y)));
+        let mut exp = vec![0x30, (eb.len() + ea.len()) as u8];
+        exp.extend_from_slice(&eb);
+        exp.extend_from_slice(&ea);
+        let mut buf = Vec::new();
+        enc(v.encode(), &mut buf)?;
+        ensure!(buf == exp, "Validity::encode({:?}, {:?}) = {}, reference {}", cb, ca, show(&buf), show(&exp));
+        let d = Mode::Der.decode(&exp[..], Validity::take_from).map_err(|e| e.to_string());
+        ensure!(d == Ok(v), "Validity::take_from({}) = {:?}, expected {:?}", show(&exp), d, v);
+    }
+    // verify_at
+    let nows: Vec<i64> = match (r.now, r.other) {
+        (Some(n), _) => vec![n],
+        (None, Some(_)) => vec![],
+        _ => set.clone(),
+    };
+    for &now in &nows {
+        evals += 1;
+        if (now - r.nb).abs() <= 1 || (now - r.na).abs() <= 1 {
+            nt += 1;
+        }
+        let tn = lib_time(now)?;
+        let exp = ok_at(r.nb, r.na, now);
+        let got = v.verify_at(tn).is_ok();
+        if got != exp || tnb.verify_not_before(tn).is_ok() != (r.nb <= now) || tna.verify_not_after(tn).is_ok() != (now <= r.na) {
+            return Err(Fail::sig("validity-verify-at", format!(
+                "window [{}, {}] at {}: verify_at ok={} (verify_not_before ok={}, verify_not_after ok={}), expected ok={}",
+                r.nb, r.na, now, got, tnb.verify_not_before(tn).is_ok(), tna.verify_not_after(tn).is_ok(), exp
+            )).with_case(case(Some(now), None)));
+        }
+    }
+    // trim
+    let others: Vec<(i64, i64)> = match (r.other, r.now) {
+        (Some(o), _) => vec![o],
+        (None, Some(_)) => vec![],
+        _ => set.iter().flat_map(|&a| set.iter().map(move |&b| (a, b))).collect(),
+    };
+    for &(nb2, na2) in &others {
+        evals += 1;
+        let v2 = Validity::new(lib_time(nb2)?, lib_time(na2)?);
+        let w = v.trim(v2);
+        let (enb, ena) = (r.nb.max(nb2), r.na.min(na2));
+        if enb <= ena && (enb != r.nb || ena != r.na) && (enb != nb2 || ena != na2) || enb == ena {
+            nt += 1;
+        }
+        let mut ok = w.not_before().timestamp() == enb && w.not_after().timestamp() == ena && v2.trim(v) == w;
+        for p in [enb - 1, enb, enb + 1, ena - 1, ena, ena + 1, r.nb, r.na, nb2, na2] {
+            let tp = lib_time(p)?;
+            ok &= w.verify_at(tp).is_ok() == (ok_at(r.nb, r.na, p) && ok_at(nb2, na2, p));
+        }
+        if !ok {
+            return Err(Fail::sig("validity-trim", format!(
+                "trim([{}, {}], [{}, {}]) = [{}, {}], intersection is [{}, {}] (or it accepts/rejects a probe instant wrongly)",
+                r.nb, r.na, nb2, na2, w.not_before().timestamp(), w.not_after().timestamp(), enb, ena
+            )).with_case(case(None, Some((nb2, na2)))));
+        }
+    }
+    obs.evals(evals.saturating_sub(1));
+    obs.bulk_nontrivial = nt;
+    obs.label(if r.nb <= r.na { "window-nonempty" } else { "window-empty" });
+    Ok(())
+}
+
+//------------ big numbers ------------------------------------------------------
+
+/// 160-bit unsigned, five 32-bit limbs, most significant first.
+type Limbs = [u32; 5];
+
+fn limbs_of(a: &[u8; 20]) -> Limbs {
+    let mut l = [0u32; 5];
+    for (i, c) in a.chunks(4).enumerate() {
+        l[i] = u32::from_be_bytes([c[0], c[1], c[2], c[3]]);
+    }
+    l
+}
+fn bytes_of(l: &Limbs) -> [u8; 20] {
+    let mut a = [0u8; 20];
+    for (i, x) in l.iter().enumerate() {
+        a[i * 4..i * 4 + 4].copy_from_slice(&x.to_be_bytes());
+    }
+    a
+}
+
+/// Decimal rendering by long division by 10^9; zero gives "0".
+fn limbs_to_dec(mut l: Limbs) -> String {
+    let mut groups = Vec::new();
+    while l.iter().any(|&x| x != 0) {
+        let mut rem = 0u64;
+        for x in l.iter_mut() {
+            let cur = (rem << 32) | *x as u64;
+            *x = (cur / 1_000_000_000) as u32;
+            rem = cur % 1_000_000_000;
+        }
+        groups.push(rem as u32);
+    }
+    match groups.pop() {
+        None => "0".to_string(),
+        Some(top) => {
+            let mut s = top.to_string();
+            for g in groups.iter().rev() {
+                s.push_str(&format!("{:09}", g));
+            }
+            s
+        }
+    }
+}
+
+/// Schoolbook parse of an all-digit string; None on overflow of 160 bits.
+fn dec_to_limbs(s: &[u8]) -> Option<Limbs> {
+    let mut l = [0u32; 5];
+    for &ch in s {
+        let mut carry = (ch - b'0') as u64;
+        for x in l.iter_mut().rev() {
+            let cur = *x as u64 * 10 + carry;
+            *x = cur as u32;
+            carry = cur >> 32;
+        }
+        if carry != 0 {
+            return None;
+        }
+    }
+    Some(l)
+}
+
+/// Minimal DER INTEGER content octets of a non-negative number.
+fn minimal_der(a: &[u8; 20]) -> Vec<u8> {
+    let first = a.iter().position(|&b| b != 0).unwrap_or(19);
+    let mut v = Vec::new();
+    if a[first] & 0x80 != 0 {
+        v.push(0);
+    }
+    v.extend_from_slice(&a[first..]);
+    v
+}
+
+fn hex20(a: &[u8; 20]) -> String {
+    a.iter().map(|b| format!("{:02x}", b)).collect()
+}
+fn unhex20(s: &str) -> Result<[u8; 20], Fail> {
+    let mut a = [0u8; 20];
+    ensure!(s.len() == 40 && s.is_ascii(), "serial must be 40 hex digits, got {:?}", s);
+    for i in 0..20 {
+        a[i] = u8::from_str_radix(&s[2 * i..2 * i + 2], 16).map_err(|_| Fail::new(format!("bad hex in {:?}", s)))?;
+    }
+    Ok(a)
+}
+fn hash_of<T: Hash>(t: &T) -> u64 {
+    let mut h = std::collections::hash_map::DefaultHasher::new();
+    t.hash(&mut h);
+    h.finish()
+}
+
+fn decode_serial(tlv: &[u8]) -> Result<Serial, String> {
+    Mode::Der.decode(tlv, Serial::take_from).map_err(|e| e.to_string())
+}
+
+/// Everything about one array.
+fn serial_single(a: &[u8; 20]) -> Result<Option<Serial>, Fail> {
+    let r = Serial::from_array(*a);
+    if a[0] & 0x80 != 0 {
+        ensure!(r.is_err() && Serial::try_from(*a).is_err() && Serial::from_slice(a).is_err(),
+            "array {} with the top bit set accepted as a serial number", hex20(a));
+        return Ok(None);
+    }
+    let s = r.map_err(|e| Fail::new(format!("from_array({}) failed: {}", hex20(a), e)))?;
+    ensure!(s.into_array() == *a && <[u8; 20]>::from(s) == *a, "into_array of {}", hex20(a));
+    ensure!(Serial::try_from(*a).ok() == Some(s), "TryFrom<[u8; 20]> of {}", hex20(a));
+    let min = minimal_der(a);
+    let unsigned = &min[if min.len() > 1 && min[0] == 0 { 1 } else { 0 }..];
+    // every left-padded form of the magnitude
+    let first = a.iter().position(|&b| b != 0).unwrap_or(19);
+    for start in [0, first / 2, first] {
+        ensure!(Serial::from_slice(&a[start..]).ok() == Some(s), "from_slice({}) != from_array", show(&a[start..]));
+    }
+    ensure!(Serial::from_slice(unsigned).ok() == Some(s), "from_slice of the magnitude octets of {}", hex20(a));
+    let l = limbs_of(a);
+    let zero = l == [0; 5];
+    // decimal text
+    let text = s.to_string();
+    let exp = limbs_to_dec(l);
+    ensure_sig!(text == exp || (zero && text.is_empty()), "serial-decimal",
+        "Display of serial {} is {:?}, long division says {:?}", hex20(a), text, exp);
+    ensure!(String::from(s) == text, "String::from differs from Display for {}", hex20(a));
+    ensure_sig!(Serial::from_str(&text).ok() == Some(s), "serial-decimal", "from_str(to_string({})) = {:?}", hex20(a), Serial::from_str(&text));
+    ensure_sig!(Serial::from_str(&exp).ok() == Some(s), "serial-decimal", "from_str({:?}) = {:?}, expected {}", exp, Serial::from_str(&exp), hex20(a));
+    let js = serde_json::to_string(&s).map_err(|e| Fail::new(e.to_string()))?;
+    ensure!(js == format!("\"{}\"", text), "serde form {} of serial {}", js, text);
+    ensure!(serde_json::from_str::<Serial>(&js).ok() == Some(s), "serde round trip of {}", js);
+    // DER
+    let mut buf = Vec::new();
+    enc(s.encode(), &mut buf)?;
+    let mut tlv = vec![0x02, min.len() as u8];
+    tlv.extend_from_slice(&min);
+    ensure_sig!(buf == tlv, "serial-der", "DER of serial {} is {}, minimal form is {}", hex20(a), show(&buf), show(&tlv));
+    let d = decode_serial(&tlv);
+    ensure_sig!(d == Ok(s), "serial-der", "take_from({}) = {:?}, expected {}", show(&tlv), d, hex20(a));
+    // native integers
+    if l[0] == 0 {
+        let v = (l[1] as u128) << 96 | (l[2] as u128) << 64 | (l[3] as u128) << 32 | l[4] as u128;
+        ensure!(Serial::from(v) == s, "From<u128>({}) != {}", v, hex20(a));
+        if let Ok(v) = u64::try_from(v) {
+            ensure!(Serial::from(v) == s, "From<u64>({}) != {}", v, hex20(a));
+        }
+    }
+    Ok(Some(s))
+}
+
+fn serial_pair(a: &[u8; 20], b: &[u8; 20], sa: Serial, sb: Serial) -> CheckResult {
+    let num = limbs_of(a).cmp(&limbs_of(b));
+    let (ma, mb) = (minimal_der(a), minimal_der(b));
+    let der = ma.len().cmp(&mb.len()).then_with(|| ma.cmp(&mb));
+    ensure!(num == der, "harness models disagree on {} vs {}", hex20(a), hex20(b));
+    let got = sa.cmp(&sb);
+    ensure_sig!(
+        got == num && sa.partial_cmp(&sb) == Some(num) && sb.cmp(&sa) == num.reverse(), "serial-order",
+        "Serial order of {} vs {}: {:?}, numeric order {:?}", hex20(a), hex20(b), got, num
+    );
+    ensure!((sa == sb) == (num == Ordering::Equal), "Serial == of {} and {}", hex20(a), hex20(b));
+    if num == Ordering::Equal {
+        ensure!(hash_of(&sa) == hash_of(&sb), "equal serials hash differently");
+    }
+    Ok(())
+}
+
+#[derive(Clone, Copy, PartialEq, Eq, Debug)]
+enum TextVerdict {
+    Accept([u8; 20]),
+    Reject,
+    Free,
+}
+
+fn classify_text(t: &str) -> TextVerdict {
+    let b = t.as_bytes();
+    if b.is_empty() {
+        return TextVerdict::Free;
+    }
+    if b.iter().all(u8::is_ascii_digit) {
+        return match dec_to_limbs(b) {
+            Some(l) if l[0] & 0x8000_0000 == 0 => TextVerdict::Accept(bytes_of(&l)),
+            _ => TextVerdict::Reject,
+        };
+    }
+    if b[0] == b'+' && b.len() > 1 && b[1..].iter().all(u8::is_ascii_digit) {
+        return TextVerdict::Free;
+    }
+    TextVerdict::Reject
+}
+
+fn serial_text(t: &str) -> Result<bool, Fail> {
+    let r = Serial::from_str(t);
+    match (classify_text(t), r) {
+        (TextVerdict::Accept(a), Ok(s)) => {
+            ensure_sig!(s.into_array() == a, "serial-decimal", "from_str({:?}) = {}, schoolbook parse says {}", t, hex20(&s.into_array()), hex20(&a));
+            // parsing is the inverse of rendering up to leading zeros
+            let canon = limbs_to_dec(limbs_of(&a));
+            ensure!(t.trim_start_matches('0') == canon.trim_start_matches('0'), "harness renderer and parser disagree on {:?}", t);
+            Ok(true)
+        }
+        (TextVerdict::Accept(a), Err(_)) => Err(Fail::sig("serial-decimal", format!("from_str rejects {:?} (= {})", t, hex20(&a)))),
+        (TextVerdict::Reject, Ok(s)) => Err(Fail::sig("serial-accepts-malformed", format!(
+            "from_str accepts {:?} (not a decimal number below 2^159) as {}", t, hex20(&s.into_array())
+        ))),
+        _ => Ok(false),
+    }
+}
+
+/// DER integers that cannot be a serial number.
+fn serial_bad_der() -> CheckResult {
+    let mut cases: Vec<Vec<u8>> = vec![
+        vec![0x02, 0x00],
+        vec![0x02, 0x01, 0x80],
+        vec![0x02, 0x01, 0xff],
+        vec![0x02, 0x02, 0xff, 0x7f],
+        vec![0x04, 0x01, 0x01],
+        vec![0x22, 0x03, 0x02, 0x01, 0x01],
+    ];
+    let mut v = vec![0x02, 21, 0x00, 0x80];
+    v.extend_from_slice(&[0; 19]);
+    cases.push(v); // 2^159
+    let mut v = vec![0x02, 21, 0x01];
+    v.extend_from_slice(&[0; 20]);
+    cases.push(v); // 2^160
+    let mut v = vec![0x02, 20, 0x80];
+    v.extend_from_slice(&[0; 19]);
+    cases.push(v); // -2^159
+    for t in [
+        "0", "1", "007", "730750818665451459101842416358141509827966271487", "000730750818665451459101842416358141509827966271487",
+        "730750818665451459101842416358141509827966271488", "1461501637330902918203684832716283019655932542975",
+        "1461501637330902918203684832716283019655932542976", "99999999999999999999999999999999999999999999999999", "hello", "-1", "-0",
+        "1 ", " 1", "1.0", "0x10", "1e3", "\u{661}",
+    ] {
+        serial_text(t)?;
+    }
+    for c in cases {
+        let d = decode_serial(&c);
+        ensure_sig!(d.is_err(), "serial-accepts-malformed", "take_from({}) = {:?}: not a non-negative integer below 2^159", show(&c), d);
+    }
+    Ok(())
+}
+
+//------------ serial-enum ------------------------------------------------------
+
+fn serial_domain(thorough: bool, seed: u64) -> Vec<[u8; 20]> {
+    let mut set = std::collections::BTreeSet::new();
+    let put = |set: &mut std::collections::BTreeSet<[u8; 20]>, l: Limbs| {
+        if l[0] & 0x8000_0000 == 0 {
+            set.insert(bytes_of(&l));
+        }
+    };
+    for v in 0..=300u32 {
+        put(&mut set, [0, 0, 0, 0, v]);
+    }
+    for k in 0..159usize {
+        let mut p = [0u32; 5];
+        p[4 - k / 32] = 1 << (k % 32);
+        put(&mut set, p);
+        // p + 1
+        let mut q = p;
+        q[4] |= 1;
+        if k == 0 {
+            q[4] = 2;
+        }
+        put(&mut set, q);
+        // p - 1: all ones below bit k
+        let mut m = [0u32; 5];
+        for i in 0..5 {
+            let lo = (4 - i) * 32;
+            m[i] = if k >= lo + 32 { u32::MAX } else if k > lo { (1u32 << (k - lo)) - 1 } else { 0 };
+        }
+        put(&mut set, m);
+    }
+    put(&mut set, [0x7fff_ffff, u32::MAX, u32::MAX, u32::MAX, u32::MAX]);
+    put(&mut set, [0x7fff_ffff, u32::MAX, u32::MAX, u32::MAX, u32::MAX - 1]);
+    let xs = seed_values(seed, "C17", "serials", if thorough { 96 * 3 } else { 16 * 3 });
+    for c in xs.chunks(3) {
+        let sh = c[0] % 160;
+        let mut l = [(c[0] >> 32) as u32 & 0x7fff_ffff, c[1] as u32, (c[1] >> 32) as u32, c[2] as u32, (c[2] >> 32) as u32];
+        // shift right by whole limbs / bits to vary the magnitude
+        for _ in 0..sh / 32 {
+            l = [0, l[0], l[1], l[2], l[3]];
+        }
+        put(&mut set, l);
+    }
+    set.into_iter().collect()
+}
+
+#[derive(Clone, Debug, Serialize, Deserialize)]
+pub struct SerialRow {
+    pub thorough: bool,
+    pub seed: u64,
+    pub a: String,
+    pub b: Option<String>,
+}
+
+fn count_serial_enum(tier: Tier, seed: u64) -> u64 {
+    serial_domain(tier == Tier::Thorough, seed).len() as u64
+}
+fn make_serial_enum(tier: Tier, seed: u64, idx: u64) -> SerialRow {
+    let th = tier == Tier::Thorough;
+    SerialRow { thorough: th, seed, a: hex20(&serial_domain(th, seed)[idx as usize]), b: None }
+}
+
+fn run_serial_enum(r: &SerialRow, obs: &mut Obs) -> CheckResult {
+    let a = unhex20(&r.a)?;
+    let Some(sa) = serial_single(&a)? else { return Ok(()) };
+    serial_bad_der()?;
+    let bs: Vec<[u8; 20]> = match &r.b {
+        Some(b) => vec![unhex20(b)?],
+        None => serial_domain(r.thorough, r.seed),
+    };
+    let mut nt = 0u64;
+    for b in &bs {
+        let sb = Serial::from_array(*b).map_err(|e| Fail::new(format!("domain element {} rejected: {}", hex20(b), e)))?;
+        if a != *b {
+            nt += 1;
+        }
+        serial_pair(&a, b, sa, sb)
+            .map_err(|f| Fail::sig(f.sig, f.msg).with_case(json!({"thorough": r.thorough, "seed": r.seed, "a": r.a, "b": hex20(b)})))?;
+    }
+    obs.evals((bs.len() as u64).saturating_sub(1));
+    obs.bulk_nontrivial = nt;
+    Ok(())
+}
+
+//------------ serial-random ----------------------------------------------------
+
+#[derive(Clone, Debug, Serialize, Deserialize)]
+pub struct SerialCase {
+    pub a: String,
+    pub b: String,
+    pub text: String,
+}
+
+fn array_strategy() -> BoxedStrategy<[u8; 20]> {
+    let raw = prop::array::uniform20(any::<u8>());
+    prop_oneof![
+        // random magnitude with `z` leading zero octets
+        4 => (raw.clone(), 0usize..20).prop_map(|(mut a, z)| { a[..z].fill(0); a[0] &= 0x7f; a }),
+        // first non-zero octet has its high bit set (needs a padding octet in DER)
+        3 => (raw.clone(), 1usize..20).prop_map(|(mut a, z)| { a[..z].fill(0); a[z] |= 0x80; a }),
+        // powers of two and neighbours
+        3 => (0usize..159, 0u8..3).prop_map(|(k, d)| {
+            let mut a = [0u8; 20];
+            a[19 - k / 8] = 1 << (k % 8);
+            match d {
+                1 => { // minus one
+                    let mut i = 19;
+                    loop { if a[i] == 0 { a[i] = 0xff; i -= 1; } else { a[i] -= 1; break; } }
+                }
+                2 => a[19] |= 1,
+                _ => {}
+            }
+            a
+        }),
+        2 => (0u16..1024).prop_map(|v| { let mut a = [0u8; 20]; a[18] = (v >> 8) as u8; a[19] = v as u8; a }),
+        1 => Just({ let mut a = [0xffu8; 20]; a[0] = 0x7f; a }),
+        // outside the domain: top bit set
+        1 => raw.prop_map(|mut a| { a[0] |= 0x80; a }),
+    ]
+    .boxed()
+}
+
+fn serial_strategy(_: Tier) -> BoxedStrategy<SerialCase> {
+    (
+        array_strategy(),
+        array_strategy(),
+        0u8..6,
+        0u8..12,
+        "[0-9]{0,4}",
+        "[0-9]{40,52}",
+        prop::sample::select(vec!["+", "-", " ", "0x", "a", ".", "١"]),
+        any::<u16>(),
+    )
+        .prop_map(|(a, b0, rel, mutation, digits, long, junk, pos)| {
+            let b = match rel {
+                0 | 1 => a,
+                2 => { // a + 1
+                    let mut b = a;
+                    for i in (0..20).rev() { let (v, o) = b[i].overflowing_add(1); b[i] = v; if !o { break; } }
+                    b
+                }
+                3 => { // a - 1
+                    let mut b = a;
+                    for i in (0..20).rev() { let (v, o) = b[i].overflowing_sub(1); b[i] = v; if !o { break; } }
+                    b
+                }
+                _ => b0,
+            };
+            let canon = limbs_to_dec(limbs_of(&{ let mut m = a; m[0] &= 0x7f; m }));
+            let text = match mutation {
+                0 | 1 => canon,
+                2 => format!("{}{}", "0".repeat(1 + digits.len()), canon),
+                3 | 4 => format!("{}{}", canon, digits),
+                5 => long,
+                6 => format!("{}{}", junk, canon),
+                7 => { let mut t = canon; let at = pick_idx(pos, t.len() + 1); t.insert_str(at, junk); t }
+                8 => "730750818665451459101842416358141509827966271487".to_string(),
+                9 => format!("73075081866545145910184241635814150982796627148{}", 8 + pos % 2),
+                10 => format!("{}{}", canon, junk),
+                _ => digits,
+            };
+            SerialCase { a: hex20(&a), b: hex20(&b), text }
+        })
+        .boxed()
+}
+
+fn run_serial_random(c: &SerialCase, obs: &mut Obs) -> CheckResult {
+    let (a, b) = (unhex20(&c.a)?, unhex20(&c.b)?);
+    let sa = serial_single(&a)?;
+    let sb = serial_single(&b)?;
+    obs.label_if(sa.is_none() || sb.is_none(), "top-bit-set");
+    if let Some(s) = sa {
+        let first = a.iter().position(|&x| x != 0).unwrap_or(19);
+        obs.label_if(a[first] & 0x80 != 0, "needs-der-padding");
+        obs.label_if(first == 0, "full-20-octets");
+        let _ = s;
+    }
+    if let (Some(sa), Some(sb)) = (sa, sb) {
+        serial_pair(&a, &b, sa, sb)?;
+        serial_pair(&b, &a, sb, sa)?;
+        obs.label(if a == b { "pair-equal" } else { "pair-distinct" });
+        obs.nontrivial_if(a != b);
+    }
+    let accepted = serial_text(&c.text)?;
+    obs.label(match classify_text(&c.text) {
+        TextVerdict::Accept(_) => "text-valid",
+        TextVerdict::Reject => if c.text.bytes().all(|b| b.is_ascii_digit()) { "text-overflow" } else { "text-garbage" },
+        TextVerdict::Free => "text-dont-care",
+    });
+    if accepted {
+        let canon = sa.map(|s| s.to_string());
+        obs.nontrivial_if(canon.as_deref() != Some(c.text.as_str()));
+        obs.label_if(c.text.starts_with('0') && c.text.len() > 1, "text-leading-zeros");
+    }
+    Ok(())
+}
+
+//------------ property ---------------------------------------------------------
 
 pub fn property() -> Property {
-    Property { id: "C17", rule: "", assumptions: vec![], subs: vec![] }
+    Property {
+        id: "C17",
+        rule: RULE,
+        assumptions: vec![
+            "domain is whole seconds of years 1..9999 (sub-second parts are dropped by the encoders by design and are not generated)",
+            "year 0000 and second 60 are don't-care for the decoder; everything else is must-accept or must-reject",
+            "time values are offered as a single DER TLV with a short-form length; tag numbers other than 23/24 must be rejected by take_from",
+            "Serial zero may render as \"\" or \"0\"; the empty string and a leading '+' are don't-care for Serial::from_str, any other non-digit and values >= 2^159 must be rejected",
+            "non-minimal DER integers are don't-care for Serial::take_from (bcder decides); negative, empty and >= 2^159 integers must be rejected",
+            "chrono's timestamp <-> DateTime conversion is cross-checked against the harness calendar on every evaluated instant rather than trusted",
+        ],
+        subs: vec![
+            EnumSub { name: "days", count: count_days, make: make_days, run: run_days, exhaustive: true }.boxed(),
+            EnumSub { name: "seconds", count: count_seconds, make: make_seconds, run: run_seconds, exhaustive: true }.boxed(),
+            EnumSub { name: "strings", count: count_strings, make: make_strings, run: run_strings, exhaustive: true }.boxed(),
+            EnumSub { name: "validity", count: count_validity, make: make_validity, run: run_validity, exhaustive: true }.boxed(),
+            EnumSub { name: "serial-enum", count: count_serial_enum, make: make_serial_enum, run: run_serial_enum, exhaustive: true }.boxed(),
+            PropSub {
+                name: "serial-random",
+                strategy: serial_strategy,
+                cases: |t| t.pick(2_000_000, 20_000_000),
+                run: run_serial_random,
+                floors: &[
+                    ("needs-der-padding", 0.15), ("full-20-octets", 0.04), ("top-bit-set", 0.04), ("pair-distinct", 0.25),
+                    ("pair-equal", 0.15), ("text-valid", 0.25), ("text-overflow", 0.06), ("text-garbage", 0.1),
+                    ("text-leading-zeros", 0.04),
+                ],
+            }
+            .boxed(),
+        ],
+    }
 }
